@@ -23,7 +23,7 @@ ASSUMPTIONS = ['layout facts come from the reference reading of the tree (pv/ref
                'the statement fixes no particular context for them']
 
 
-VIAS = ['decode', 'loads', 'iterdecode', 'codec', 'load-name', 'load-path', 'load-fileobj', 'load-stringio']
+VIAS = ['decode', 'loads', 'iterdecode', 'codec', 'load-name', 'load-path', 'load-fileobj', 'load-stringio', 'late-codec', 'interface-decode', 'interface-load']
 
 
 def _decode_via(via, node, m):
@@ -45,6 +45,22 @@ def _decode_via(via, node, m):
         return next(iter(penman.iterdecode(text, model=m)))
     if via == 'codec':
         return penman.PENMANCodec(model=m).decode(text)
+    if via == 'late-codec':
+        c = penman.PENMANCodec()
+        c.model = m
+        return c.decode(text)
+    if via in ('interface-decode', 'interface-load'):
+        import importlib
+        import warnings
+        with warnings.catch_warnings():
+            warnings.simplefilter('ignore')
+            pi = importlib.import_module('penman.interface')
+        if via == 'interface-decode':
+            return pi.decode(text, model=m)
+        p = os.path.join(tmpdir(), 'c14i.txt')
+        with open(p, 'w', encoding='utf-8') as fh:
+            fh.write(text)
+        return pi.load(p, model=m, encoding='utf-8')[0]
     if via == 'load-stringio':
         return penman.load(io.StringIO(text), model=m)[0]
     p = os.path.join(tmpdir(), 'c14.txt')
@@ -107,6 +123,9 @@ def check(case):
                 g = copy.deepcopy(g)
         except penman.exceptions.ModelError:
             pass
+    ctx0 = layout.node_contexts(g)
+    ctx0.reverse()          # the returned list is the caller's; what is done to it must not change later answers
+    del ctx0[:1]
     ctx = layout.node_contexts(g)
     want = [x['ctx'] for x in rd.facts]
     if ctx != want:
@@ -161,7 +180,7 @@ def classes(case):
 
 @st.composite
 def _cases(draw, deep=False, large=False):
-    spec = draw(models.model_specs(open_patterns=True))
+    spec = draw(models.model_specs(open_patterns=True, hand_noop=True))
     j = draw(trees.wf_trees(spec, max_nodes=40 if large else (14 if deep else 8), deep=deep, aligned=draw(st.booleans()), wide=14 if large else 3))
     case = {'tree': j, 'model': spec, 'strip': draw(st.integers(0, 4)) == 0}
     if draw(st.booleans()):
